@@ -119,6 +119,7 @@ func configure(maxKeys int) func() {
 var palette = []string{
 	`"value":1`, `"value":20`, `"VALUE":3`, `"value":"1"`, `"value":1.5`, `"value":-1`, `"value":18446744073709551616`, `"value":null`,
 	`"unit":"kB"`, `"Unit":"KiB"`, `"unit":"B"`, `"unit":5`, `"unit":"xB"`, `"unit":"EiB"`, `"unit":""`,
+	`"value":9007199254740993.0`, `"value":1.00000000000000000001`, `"value":1023.99999999999999999`, `"value":18446744073709551615.0`, `"value":1.8446744073709551616e19`, `"value":1e0`, `"value":10E-1`,
 	`"x":1`, `"y":{"value":9,"unit":"MB","z":[1,{"a":[]}]}`, `"z":[[1,2],{"unit":"kB"}]`, `"":null`, `"valu":true`,
 }
 
@@ -280,6 +281,67 @@ func TestCheck(t *testing.T) {
 						judge(Case{Input: vkit.B(doc), Rule: rule, MaxKeys: mk}, w)
 						w.EvalRandom(vkit.Hash64(doc, strconv.Itoa(rule), strconv.Itoa(mk), "h"), true)
 						restore()
+					}
+				}
+			}
+		})
+	})
+
+	// Phase H2: long documents whose end falls on and around typical buffer sizes (512, 1024, 4096 bytes), each followed by
+	// nothing / white space / trailing data. MaxInputLength is disabled in this check.
+	r.Phase("H2: objects, strings and numbers padded to lengths around 512, 1024, 2048 and 4096 bytes, with and without trailing data", func() {
+		defer configure(0)()
+		var docs []string
+		for _, target := range []int{500, 509, 510, 511, 512, 513, 514, 515, 520, 1022, 1023, 1024, 1025, 1026, 2047, 2048, 2049, 4094, 4095, 4096, 4097, 4098} {
+			core := `{"value":3,"unit":"KiB"}`
+			if target > len(core)+12 {
+				pad := target - len(core)
+				docs = append(docs,
+					strings.Repeat(" ", pad)+core,                               // leading white space
+					core[:1]+strings.Repeat(" ", pad)+core[1:],                  // white space inside
+					core[:len(core)-1]+`,"p":"`+strings.Repeat("x", pad-7)+`"}`, // a long unknown member
+					`{"p":"`+strings.Repeat("x", pad-7)+`",`+core[1:],           // ... in front
+					core+strings.Repeat(" ", pad),                               // trailing white space up to the boundary
+					`"`+strings.Repeat(" ", target-8)+`3 KiB"`,                  // string form
+					strings.Repeat(" ", target-4)+`3072`,                        // number form
+				)
+			}
+		}
+		r.Parallel(int64(len(docs)), 1, func(w *vkit.W, lo, hi int64) {
+			for i := lo; i < hi; i++ {
+				for _, sfx := range []string{"", " ", "x", " 1", "}", "]", ",", "{}", `,"unit":"B"}`, "\n\n", " null"} {
+					for _, rule := range []int{6, 14, 2, 4} {
+						c := Case{Input: vkit.B(docs[i] + sfx), Rule: rule, MaxKeys: 0}
+						judge(c, w)
+						w.EvalRandom(vkit.Hash64(docs[i], sfx, strconv.Itoa(rule)), true)
+					}
+				}
+			}
+		})
+	})
+
+	// Phase H3: very many distinct member names in one process, then the ordinary documents again.
+	r.Phase("H3: 3000 objects with distinct unknown member names and key spellings, interleaved with ordinary documents", func() {
+		defer configure(0)()
+		r.Serial(func(w *vkit.W) {
+			plain := []string{`{"value":3,"unit":"KiB"}`, `{"unit":"kB","value":2}`, `{"VALUE":1,"Unit":"B"}`, `{"value":1}`, `{"unit":"B"}`, `{"valuex":1,"unit":"B","value":7}`}
+			for i := 0; i < 3000; i++ {
+				k1, k2 := "k"+strconv.Itoa(i), strings.ToUpper("key")+strconv.Itoa(i*7919)
+				spell := []byte("value")
+				for b := 0; b < 5; b++ {
+					if i>>uint(b)&1 == 1 {
+						spell[b] -= 32
+					}
+				}
+				doc := `{"` + k1 + `":1,"` + string(spell) + `":` + strconv.Itoa(i%50) + `,"` + k2 + `":[{"value":2}],"uNIt":"B","unit` + strconv.Itoa(i) + `":"x"}`
+				judge(Case{Input: vkit.B(doc), Rule: 6, MaxKeys: 0}, w)
+				w.EvalRandom(vkit.Hash64(doc), true)
+				if i%3 == 0 {
+					for _, p := range plain {
+						for _, rule := range []int{6, 14} {
+							judge(Case{Input: vkit.B(p), Rule: rule, MaxKeys: 0}, w)
+							w.EvalRandom(vkit.Hash64(p, strconv.Itoa(rule), strconv.Itoa(i)), true)
+						}
 					}
 				}
 			}
